@@ -171,9 +171,9 @@ def run(ctx):
     ctx.explanation = ('Symbolic integer parameters through the real constructor and compilation under CrossHair; '
                        'concrete synthesis of every corpus design with the four strategies (UniGen in a child process).')
     import os as _os
-    _os.environ.setdefault('VERIF_ITEM_TIMEOUT', '300' if ctx.tier == 'thorough' else '30')
+    _os.environ.setdefault('VERIF_ITEM_TIMEOUT', '300' if ctx.tier == 'thorough' else '15')
     ds = designs(ctx.tier, ctx.seed) + c14.extra_designs() + c25.nest_designs(ctx.tier, ctx.seed)
     res = pmap(ctx, synth, ds)
     ctx.extra['design_outcomes'] = {str(k): res.count(k) for k in set(res)}
-    run_cases(ctx, HEADER, shapes(ctx.tier), timeout=600 if ctx.tier == 'thorough' else 100, path_timeout=60, module_tag='c08',
+    run_cases(ctx, HEADER, shapes(ctx.tier), timeout=600 if ctx.tier == 'thorough' else 70, path_timeout=40, module_tag='c08',
               keyfn=lambda c, kw: f"symbolic:{c.info['shape']}")
